@@ -70,6 +70,23 @@ Theorem C08_field_mask_is_range :
                   /\ m = range_mask p l.
 Proof. exact field_mask_is_range. Qed.
 
+(* "... a tag's fields, which always include the fields they depend on": in every reachable state a field
+   carries the tags of every field defined under a condition naming it, so the selection made for a tag
+   contains, with a field, every field that field depends on. *)
+Theorem C08_tags_closed :
+  forall st, reachable st -> tags_closed (s_tree st) (s_store st).
+Proof. exact reachable_tags_closed. Qed.
+
+Theorem C08_tag_selection_closed :
+  forall st fv tg i f i' f' p p',
+    reachable st ->
+    In (p, (i, f)) (flat (s_tree st) []) -> In (p', (i', f')) (flat (s_tree st) []) ->
+    In (i, f) (filter (has_tag (s_store st) tg) (enabled_fields (s_tree st) fv)) ->
+    req_enabled fv p = true ->
+    depends_on (p, (i, f)) (p', (i', f')) = true ->
+    In (i', f') (filter (has_tag (s_store st) tg) (enabled_fields (s_tree st) fv)).
+Proof. exact tag_selection_closed. Qed.
+
 (* Two complete instances that differ in the value of a field never produce key/mask pairs that match a
    common key (get_value only returns for complete instances: C08_key_needs_complete). *)
 Theorem C08_keys_distinct :
@@ -142,11 +159,21 @@ Proof. exact add_field_negative_start_orig_refuted. Qed.
 
 (* ---------------------------------------------------------------- completeness *)
 (* Full clause of the property: `reachable st -> unpositioned .. -> widths_fit .. -> exists st',
-   assign_fields st = (st', None)`.  It is FALSE of the faithful model and of the code (R below).
-   Proved part (U): bit fields without sub-scopes.  Missing for the full guard of DESIGN.md
-   (exclusive_children: the children of every node have pairwise contradictory requirements): the
-   packing argument over the leaf-first pass; the oracle checks that case on every run. *)
-Theorem C08_assign_complete_flat_partial :
+   assign_fields st = (st', None)` ("no field is positioned and the widths of the fields that can be present
+   together never sum to more than the length => assignment succeeds").  It is FALSE of the faithful
+   model and of the code (R below: first-fit fragmentation).  It is proved (U) under the boolean guard
+   [exclusive_children]: the children of every node have pairwise contradictory requirements -- every
+   flat bit field, every hierarchy whose scopes are opened by the values of one field per node, ... -- i.e.
+   exactly when the fields present together always form a chain of nested scopes. *)
+Theorem C08_assign_complete_exclusive :
+  forall st, reachable st -> exclusive_children (s_tree st) = true ->
+    unpositioned (s_tree st) (s_store st) ->
+    widths_fit (s_len st) (s_tree st) (s_store st) ->
+    exists st', assign_fields st = (st', None).
+Proof. exact assign_complete_exclusive_reachable. Qed.
+
+(* in particular bit fields without sub-scopes *)
+Theorem C08_assign_complete_flat :
   forall st fs, reachable st -> s_tree st = Node fs [] ->
     unpositioned (s_tree st) (s_store st) ->
     widths_fit (s_len st) (s_tree st) (s_store st) ->
@@ -181,6 +208,12 @@ Example C08_layout_instance :
     /\ get_mask st' (nth 4 (s_insts st') []) None None = Ok m2
     /\ (v1, m1, v2, m2) = (265, 783, 672, 992).
 Proof. exact ex_instance. Qed.
+
+Example C08_exclusive_guard_satisfiable :
+  exists st, reachable st /\ exclusive_children (s_tree st) = true /\ t_children (s_tree st) <> []
+    /\ unpositioned (s_tree st) (s_store st) /\ widths_fit (s_len st) (s_tree st) (s_store st)
+    /\ s_len st = 5.
+Proof. exact ex_exclusive_instance. Qed.
 
 Example C08_complete_guard_satisfiable :
   exists st fs, reachable st /\ s_tree st = Node fs [] /\ fs <> []
